@@ -99,6 +99,7 @@ THEOREMS = [
     "Optyx.Props.ScaledTie.scaledLoop_step",
     "Optyx.Props.ScaledTie.scaledPattern_frame",
     "Optyx.Props.ConstraintTie.getVariables_text",
+    "Optyx.Props.StateTie.accessors_text",
     "Optyx.Props.PinsC14.anchors",
 ]
 ASSUMPTIONS = [
